@@ -138,6 +138,23 @@ def execNT (R : Routes) (K : Carries) (now : Nat) (st : List TShard) : TCmd → 
     let sts := st.map (fun sh => adopt K .generic sh now)
     (sts, [.int ((sts.map (fun sh => (sh.data.filter (fun p => !expired sh.clock p.2)).length)).sum)])
 
+/-! ### the timed sequential specification of one key (C02)
+
+  An operation INVOKED at virtual time `now` sees an entry iff `now < deadline`; nothing else ever
+  removes an entry: expiry is a function of the invocation time, not an operation. -/
+
+def specSlot (op : KOp) (now : Nat) (old : Option Entry) : Option Entry × R1 :=
+  match op with
+  | .set v => (some (v, none), .ok)
+  | .setPx v ms => (some (v, some (now + ms)), .ok)
+  | .setEx v secs => (some (v, some (now + 1000 * secs)), .ok)
+  | .get => (old, bulk (liveE now old))
+  | .exists => (old, .int (if (liveE now old).isSome then 1 else 0))
+
+def specKeyAt (now : Nat) (s : NMap Entry) (c : Key × KOp) : NMap Entry × R1 :=
+  let r := specSlot c.2 now (NMap.get s c.1)
+  (put s c.1 r.1, r.2)
+
 def tinit (n : Nat) : List TShard := List.replicate n { data := [], clock := 0 }
 
 /-- a timed run: every step is (virtual time, command) -/
